@@ -75,7 +75,7 @@ def compare_trees(ctx, rule, what, wfunc, rfunc, wops, rops, names=True):
     return not bad
 
 
-def z1_objects(prog, ctx, wc):
+def z1_objects(prog, ctx, wc, tag="Z1"):
     count = 0
     trees = {}
     for rel, cls, wname, rname, names in OBJECT_PAIRS:
@@ -998,6 +998,33 @@ def z7_saved_files(prog, ctx):
     ctx.floor("Z7", "feasible paths of process_sample", n, 4)
 
 
+def z8_no_partial_records(prog, ctx):
+    """A record is written field by field: an exception in the middle leaves a partial record in the stream.  No writer of the
+    intermediate files may catch exceptions around a serialize() call and carry on."""
+    n = 0
+    for m, q, f in prog.all_functions():
+        if m.rel not in ("src/assignment_io.py", "src/dataset_processor.py"):
+            continue
+        for t in walk_no_nested(f):
+            if not isinstance(t, ast.Try):
+                continue
+            calls = [c for st in t.body for c in ast.walk(st) if isinstance(c, ast.Call) and isinstance(c.func, ast.Attribute)
+                     and (c.func.attr == "serialize" or (call_name(c) or "").startswith("write_"))]
+            if not calls:
+                continue
+            n += 1
+            swallowing = [h for h in t.handlers if not flow.always_exits(h.body) or any(isinstance(x, ast.Continue) for x in ast.walk(ast.Module(body=h.body, type_ignores=[])))]
+            swallowing = [h for h in swallowing if not any(isinstance(x, ast.Raise) for x in ast.walk(ast.Module(body=h.body, type_ignores=[])))]
+            if swallowing:
+                ctx.fail("Z8", swallowing[0], q, "except %s: ..." % (src(swallowing[0].type) if swallowing[0].type is not None else ""),
+                         "an exception raised inside %s is caught and the writer carries on: the record's tag and the fields written before the "
+                         "failing one are already in the file, so every following record is read out of alignment by both loaders"
+                         % src(calls[0])[:50])
+            else:
+                ctx.ok("Z8", "%s:%d" % (m.rel, t.lineno), "%s: exceptions around %s are re-raised / leave the function" % (q, src(calls[0])[:40]))
+    ctx.ok("Z8", "src/assignment_io.py", "%d try-blocks around serialisation calls, none swallowing" % n, nontrivial=False)
+
+
 def run(prog, ctx):
     ctx.rule("Z1", "writer and reader of every codec pair reduce to the same wire-type tree, position by position, and "
                    "(where derivable) the same field name; the abridged reader consumes exactly ReadAssignment's tree; "
@@ -1013,6 +1040,13 @@ def run(prog, ctx):
     n_pk = z1_pickle_state(prog, ctx)
     pairs = z2_codecs(prog, ctx, wc)
     z3_fields(prog, ctx, wc, trees)
+    ctx.rule("Z8", "no try-block of the writers of the intermediate files catches an exception around a serialize() / write_*() call without "
+                   "re-raising (a partial record would shift everything behind it)")
+    z8_no_partial_records(prog, ctx)
+    ctx.rule("Z9", "the abridged record takes the same fields from the same wire positions as the full one and as the in-memory constructor "
+                   "(rule M4 of C08: attribute sets, start/end from the first / last original exon, identical summary loops)")
+    from . import c08 as _c08
+    _c08.m4(prog, ctx, tag="Z9")
     ctx.rule("Z7", "path-wise influence propagation in process_sample: no argument of a deleting call (os.remove, clean_locks, ...) depends on "
                    "args.read_assignments on a feasible path (paths testing the same atom both ways are dropped)")
     z7_saved_files(prog, ctx)
